@@ -43,7 +43,7 @@ FLT_T = D.FLOAT_TYPES
 FLOATS = [0.1, 12.1, 15.0, 23.7, 1.0 / 3.0, 6.02214076e23, 1e-7, -2.5, 0.5, 299792458.0, 1.7976931348623157e308, 5e-324 * 2 ** 60,
           123456.789012345, 0.0, -0.75, 3.0]
 WORDS = ["Configuration test", "abc", "x", "two  blanks", "a,b;c", "UPPER lower", "tab-less", "#hash", "per%cent", "semi;", "v2#beta",
-         "{curly}", "[1,2]", "true", "12", "none-such"]
+         "{curly}", "[1,2]", "true", "12", "none-such", "5 \u00b5m grid", "\u00c5. Bj\u00f6rk", "\u03b1"]
 SPECIAL = ['say "hi"', "it's", "cost $5", "back\\slash", "`tick`", "a\"b'c"]
 
 
